@@ -83,6 +83,7 @@ func c09RunLock(co *caseOut, in c09LInput, dir string, seq int) error {
 		seekArrive: make(chan struct{}), seekGo: make(chan struct{}),
 		putArrive: make(chan struct{}), putGo: make(chan struct{}),
 		putWritten: make(chan struct{}), putGoExit: make(chan struct{})}
+	g.settle = base0.settle
 	L := storage.NewMemCachedStore(g)
 
 	// history: batches and complete flushes; what is unflushed at the end is the batch in flight
